@@ -177,12 +177,13 @@ pub(crate) fn m_display_none() {
     let _which: u8 = kani::any();
     let html = "<div style=\"height:0;overflow:hidden\">hida</div><div style=\"overflow:hidden\">visa</div>\
                 <div style=\"height:0\">visb</div><p style=\"display:none\">hidb</p><p style=\"display:block\">visc</p>\
-                <div style=\"max-height:0; overflow-y:hidden\">hidc</div><div style=\"height:1px;overflow:hidden\">visd</div>";
+                <div style=\"max-height:0; overflow-y:hidden\">hidc</div><div style=\"height:1px;overflow:hidden\">visd</div>\
+                <div style=\"max-height:0; height:20px; overflow:hidden\">hidd</div><div style=\"overflow:hidden; height:0; max-height:5px\">hide</div>";
     let out = crate::config::plain().use_doc_css().string_from_read(html.as_bytes(), 60).expect("renders");
     for w in ["visa", "visb", "visc", "visd"] {
         assert!(out.contains(w), "{} should be visible: {:?}", w, out);
     }
-    for w in ["hida", "hidb", "hidc"] {
+    for w in ["hida", "hidb", "hidc", "hidd", "hide"] {
         assert!(!out.contains(w), "{} should be hidden: {:?}", w, out);
     }
     // without use_doc_css, styles in the document have no effect
